@@ -455,6 +455,8 @@ static int arenaGrow(char *nbrk)
 /* The environment's moves, callable by a harness between two requests. */
 void simSbrkRefuse(unsigned long n) { refusePending = n; }
 unsigned long simSbrkRefusePending(void) { return refusePending; }
+/* where the most recent foreign break movement put its pages (for a harness that wants to own them) */
+static char *lastForeignBase; static unsigned long lastForeignPages;
 int simSbrkForeign(unsigned long pages)
 {
 	char *nb;
@@ -466,10 +468,12 @@ int simSbrkForeign(unsigned long pages)
 	/* somebody else's data: a recognisable non-pointer pattern */
 	for (i = 0; i < pages * 4096; i += 8) *(unsigned long *) (arenaBrk + i) = 0x4645524f464e4721UL;
 	simLog("B %lu foreign %lu %lu\n", nSbrk, pages, (unsigned long) (arenaBrk - arenaBase));
+	lastForeignBase = arenaBrk; lastForeignPages = pages;
 	arenaBrk = nb;
 	nSbrkForeign++;
 	return 1;
 }
+char *simLastForeign(unsigned long *pages) { *pages = lastForeignPages; return lastForeignBase; }
 unsigned long simArenaCap(void) { planLoad(); return P.sbrkCap; }
 char *simArenaBase(void) { return arenaBase; }
 char *simArenaBrk(void) { return arenaBrk; }
